@@ -391,15 +391,19 @@ def clientProfile (c : Cfg) (name : String) : List (String × FieldVal) :=
      ("client-profile.sasl.username", .s (c.vString (saslRoot ++ ["username"])))]
    else [("client-profile.sasl", .null)])
 
-/-- a module detail handler at configuration root `root` -/
+/-- `moduleConfigured` (config.go): the requested name is a key of the table of that kind -/
+def moduleConfigured (c : Cfg) (kind name : String) : Bool := (c.vChildren [kind]).contains name.toLower
+
+/-- the body of a module detail handler: the fields read under configuration root `root` -/
 def moduleDetailAt (c : Cfg) (root : List String) (fs : List (String × String × Getter)) (withProfile : Bool) : Resp :=
-  if !c.vSet root then notFoundErr
-  else ok (.module (readFields c root fs ++
+  ok (.module (readFields c root fs ++
     (if withProfile then clientProfile c (c.vString (root ++ ["client-profile"])) else [])))
 
-/-- `configRoot := "<kind>." + name` — the name's own dots become path separators -/
+/-- a module detail handler: 404 unless the name is a configured module of that kind; then
+    `configRoot := "<kind>." + name` -/
 def moduleDetail (c : Cfg) (kind name : String) (fs : List (String × String × Getter)) (withProfile : Bool) : Resp :=
-  moduleDetailAt c (kind :: keyPath name) fs withProfile
+  if !moduleConfigured c kind name then notFoundErr
+  else moduleDetailAt c (kind :: keyPath name) fs withProfile
 
 def moduleList (c : Cfg) (kind : String) : Resp := ok (.moduleList kind (c.vChildren [kind]))
 
@@ -442,7 +446,6 @@ def H.ofName (h : String) : H :=
   else .unknown
 
 def notifierDetailAt (c : Cfg) (root : List String) : Resp :=
-  if !c.vSet root then notFoundErr else
   let cls := c.vString (root ++ ["class-name"])
   if cls == "http" then moduleDetailAt c root notifierHTTP false
   else if cls == "email" then moduleDetailAt c root notifierEmail false
@@ -450,7 +453,9 @@ def notifierDetailAt (c : Cfg) (root : List String) : Resp :=
   else if cls == "null" then moduleDetailAt c root notifierCommon false
   else { code := 200, ctype := .none, err := none, payload := .other "empty" }
 
-def notifierDetailResp (c : Cfg) (name : String) : Resp := notifierDetailAt c ("notifier" :: keyPath name)
+def notifierDetailResp (c : Cfg) (name : String) : Resp :=
+  if !moduleConfigured c "notifier" name then notFoundErr
+  else notifierDetailAt c ("notifier" :: keyPath name)
 
 def handleH {W : Type} (be : Backend W) (w : W) (ps : Params) : H → W × Resp
   | .clusterList => (w, ok (.names "clusters" (be.clusters w)))
